@@ -3,11 +3,11 @@
    about (that is C02).  Any field of characteristic 0; the halves are restrictions to [0,1/2] and [1/2,1], so the rescaling
    s/2, (1+t)/2 of the glue is exactly right. *)
 From Coq Require Import List Arith Lia Ring Field.
-From BZ Require Import Base.Ops Model.Curve Model.SelfIsectN Theory.CurveEval Theory.CurveSubdiv.
+From BZ Require Import Base.Ops Model.Curve Model.SelfIsectN Theory.CurveEval Theory.CurveSubdiv Theory.Uniq.
 Import ListNotations.
 
 Section Genuine.
-Context {T : Type} (K : Ops T) (FT : field_of K) (C0 : char0 K) (eqb : T -> T -> bool).
+Context {T : Type} (K : Ops T) (FT : field_of K) (C0 : char0 K) (eqb : T -> T -> bool) (dup : T * T -> T * T -> bool).
 Add Field TFG : FT.
 Let RT : ring_of K := F_R FT.
 Declare Scope t_scope. Delimit Scope t_scope with t.
@@ -64,7 +64,7 @@ Definition genuine_call (c : callN (T := T)) : Prop :=
   let '(l, r, lr) := c in forall p, In p lr -> point l (fst p) = point r (snd p).
 
 Theorem reported_pairs_are_self_intersections : forall fuel rows st res calls st',
-  wf_rows rows -> self_isect_n K eqb fuel rows st = Some (res, calls, st') ->
+  wf_rows rows -> self_isect_n K eqb dup fuel rows st = Some (res, calls, st') ->
   Forall genuine_call calls -> forall p, In p res -> point rows (fst p) = point rows (snd p).
 Proof.
   induction fuel as [|f IH]; intros rows st res calls st' Hw H Hg p Hp; [discriminate|].
@@ -72,12 +72,13 @@ Proof.
   destruct (anglesN st) as [|[|] rest]; [discriminate| |].
   - injection H as <- <- <-. destruct Hp.
   - set (l := map (subdivide_left K) rows) in *. set (r := map (subdivide_right K) rows) in *.
-    destruct (self_isect_n K eqb f l (mkS rest (isectsN st))) as [[[left_self calls1] st1]|] eqn:E1; [|discriminate].
-    destruct (self_isect_n K eqb f r st1) as [[[right_self calls2] st2]|] eqn:E2; [|discriminate].
+    destruct (self_isect_n K eqb dup f l (mkS rest (isectsN st))) as [[[left_self calls1] st1]|] eqn:E1; [|discriminate].
+    destruct (self_isect_n K eqb dup f r st1) as [[[right_self calls2] st2]|] eqn:E2; [|discriminate].
     destruct (isectsN st2) as [|lr more]; [discriminate|].
     injection H as <- <- <-.
     apply Forall_app in Hg. destruct Hg as [Hg1 Hg]. apply Forall_app in Hg. destruct Hg as [Hg2 Hg3].
     inversion Hg3 as [|? ? Hcall _]; subst. cbn in Hcall.
+    apply (uniq_by_incl dup) in Hp.
     apply in_app_or in Hp. destruct Hp as [Hp|Hp]; [|apply in_app_or in Hp; destruct Hp as [Hp|Hp]].
     + apply in_map_iff in Hp. destruct Hp as [q [<- Hq]]. cbn [fst snd].
       pose proof (IH l _ _ _ _ (wf_left rows Hw) E1 Hg1 q Hq) as Hq'. unfold l in Hq'.
@@ -92,7 +93,7 @@ Qed.
 
 (* the recorded calls are made on the two halves of the curve the recursion is at *)
 Theorem calls_are_on_halves : forall fuel rows st res calls st',
-  self_isect_n K eqb fuel rows st = Some (res, calls, st') ->
+  self_isect_n K eqb dup fuel rows st = Some (res, calls, st') ->
   match rev calls with
   | [] => anglesN st <> [] /\ hd false (anglesN st) = true
   | (l, r, _) :: _ => l = map (subdivide_left K) rows /\ r = map (subdivide_right K) rows
@@ -101,8 +102,8 @@ Proof.
   intros [|f] rows st res calls st' H; [discriminate|]. cbn [self_isect_n] in H.
   destruct (anglesN st) as [|[|] rest]; [discriminate| |].
   - injection H as <- <- <-. cbn. split; [discriminate|reflexivity].
-  - destruct (self_isect_n K eqb f _ _) as [[[left_self calls1] st1]|]; [|discriminate].
-    destruct (self_isect_n K eqb f _ st1) as [[[right_self calls2] st2]|]; [|discriminate].
+  - destruct (self_isect_n K eqb dup f _ _) as [[[left_self calls1] st1]|]; [|discriminate].
+    destruct (self_isect_n K eqb dup f _ st1) as [[[right_self calls2] st2]|]; [|discriminate].
     destruct (isectsN st2) as [|lr more]; [discriminate|]. injection H as <- <- <-.
     rewrite app_assoc, rev_app_distr. cbn [rev app]. split; reflexivity.
 Qed.
